@@ -34,21 +34,34 @@ func nestableTags(p *core.Program, r *core.Report, rule string) map[string]bool 
 	}
 	n := map[string]bool{}
 	re := regexp.MustCompile(`^\$0 == "([^"]*)"$`)
+	reIn := regexp.MustCompile(`^in\(((?:set|map)‹.*›),\$0\)$`)
 	for _, pa := range paths {
+		// `return <membership in a fixed table>`: the table is the nestable set
+		if m := reIn.FindStringSubmatch(pa.Outcome); m != nil {
+			for _, k := range tableKeys(m[1]) {
+				n[k] = true
+			}
+			continue
+		}
 		if pa.Outcome != "true" {
 			continue
 		}
-		tag := ""
+		found := false
 		for _, l := range pa.Lits {
 			if m := re.FindStringSubmatch(l.Atom); m != nil && l.Val {
-				tag = m[1]
+				n[m[1]] = true
+				found = true
+			}
+			if m := reIn.FindStringSubmatch(l.Atom); m != nil && l.Val {
+				for _, k := range tableKeys(m[1]) {
+					n[k] = true
+				}
+				found = true
 			}
 		}
-		if tag == "" {
+		if !found {
 			r.Add(rule, "CanBeNested: true without a tag test", pa.Pos, false, pa.String())
-			continue
 		}
-		n[tag] = true
 	}
 	return n
 }
@@ -270,6 +283,20 @@ func checkPlaceholderBalance(p *core.Program, r *core.Report, rule string) bool 
 			for _, l := range pa.Lits {
 				if m := reTagEq.FindStringSubmatch(l.Atom); m != nil && l.Val {
 					tagTrue = m[1]
+				}
+				// membership in a fixed table of tag names none of which is nestable counts as
+				// being conditioned on a non-nestable tag (represented by one of them)
+				if strings.HasPrefix(l.Atom, "in(") && strings.HasSuffix(l.Atom, ",dom.TagName($1))") && l.Val {
+					keys := tableKeys(strings.TrimSuffix(strings.TrimPrefix(l.Atom, "in("), ",dom.TagName($1))"))
+					none := len(keys) > 0
+					for _, k := range keys {
+						if nest[k] {
+							none = false
+						}
+					}
+					if none && tagTrue == "" {
+						tagTrue = keys[0]
+					}
 				}
 				if l.Atom == "webdoc.CanBeNested(dom.TagName($1))" && l.Val {
 					nestGuard = true
